@@ -41,7 +41,8 @@ def gen_history(rng, n, **kw):
     for _ in range(n):
         r = rng.random()
         if r < 0.45: ops.append(gen_decl(rng, **kw))
-        elif r < 0.97: ops.append(gen_call(rng))
+        elif r < 0.955: ops.append(gen_call(rng))
+        elif r < 0.975: ops.append("mode " + rng.choice(["loose", "learning", "strict"]))      # the mode selected after declarations have been made: they stay
         else: ops.append("tally")
     ops.append("tally")
     return ops
